@@ -227,7 +227,7 @@ class C09(Prop):
     def gen_programs(self, rng, spec, k, n):
         progs = []
         for i in range(k):
-            p = proggen.random_program(rng, spec, n, weights={'commit': 3, 'rollback': 2, 'flush': 6, 'add': 8, 'query': 0,
+            p = proggen.random_program(rng, spec, n, weights={'commit': 3, 'rollback': 2, 'flush': 12, 'add': 10, 'query': 0,
                                                              'setrel': 0, 'link': 0, 'unlink': 0}, nkeys=2)
             p = p[:-1][:n]
             end = rng.choice([['commit'], ['commit'], ['rollback'], ['close']])
@@ -239,7 +239,7 @@ class C09(Prop):
         for j in range(n):
             spec = proggen.random_spec(rng, shapes=['articles', 'composite', 'joined'], plugins=rng.choice([[], ['tx_changes']]))
             k = rng.choice([2, 2, 3])
-            progs = self.gen_programs(rng, spec, k, rng.choice([3, 4, 6]))
+            progs = self.gen_programs(rng, spec, k, rng.choice([4, 6, 8]))
             sched = [i for i, p in enumerate(progs) for _ in p]
             rng.shuffle(sched)
             shared = False
